@@ -283,25 +283,72 @@ def polar_info(ctx):
     return fi
 
 
+class _Ret:
+    """a returned tuple on one path: behaves like the (stmt, length) pair older callers unpack, plus the element expressions"""
+
+    def __init__(self, stmt, elts):
+        self.stmt, self.elts = stmt, elts
+
+    def __iter__(self):
+        return iter((self.stmt, len(self.elts)))
+
+    def __getitem__(self, i):
+        return (self.stmt, len(self.elts))[i]
+
+
 def polar_returns(ctx):
-    """{dim: (return stmt, tuple length)} for the ret_angle branches — decided as a truth table over the grid
-    dimension (whatever the dispatch is spelled like: elif chain, successive early returns, negated tests)"""
+    """{dim: returned tuple} for the ret_angle branches — decided as a truth table over the grid dimension on every
+    path to every return (whatever the dispatch is spelled like: elif chain, successive early returns, negated tests, a
+    tuple of angles assigned per branch and returned once as ``(dist, *angles)``)"""
     from ..astutil import value_cases, mini_eval
 
     fi = polar_info(ctx)
     fv = view(ctx.model, fi)
     gp = fi.params[0]
+    # local aliases of the grid's dimension
+    dim_alias = {f"{gp}.dim"}
+    for s_ in fv.statements():
+        if isinstance(s_, ast.Assign) and len(s_.targets) == 1 and isinstance(s_.targets[0], ast.Name) and U(s_.value) == f"{gp}.dim":
+            dim_alias.add(s_.targets[0].id)
+    # the difference vector and its norm keep their names (the angle rules are phrased in terms of them)
+    keep = [gp]
+    for s_ in fv.statements():
+        if isinstance(s_, (ast.Assign, ast.AnnAssign)) and s_.value is not None and isinstance(s_.value, ast.Call):
+            tg_ = s_.targets[0] if isinstance(s_, ast.Assign) else s_.target
+            if isinstance(tg_, ast.Name) and ((isinstance(s_.value.func, ast.Attribute) and s_.value.func.attr == "difference_vector") or (fv.callee(s_.value) or "").endswith("linalg.norm")):
+                keep.append(tg_.id)
     out = {}
     for n in fv.return_nodes():
         s = n.stmt
-        if not isinstance(s.value, ast.Tuple):
+        if s.value is None or not isinstance(s.value, ast.Tuple):
             continue
-        for dec, _ in value_cases(fv, s, s.value):
+        for dec, val in value_cases(fv, s, s.value, stop=tuple(keep)):
+            if isinstance(val, str):
+                try:
+                    val = ast.parse(val, mode="eval").body
+                except SyntaxError:
+                    continue
+            if not isinstance(val, ast.Tuple):
+                continue
+            elts = []
+            flat_ok = True
+            for e in val.elts:
+                if isinstance(e, ast.Starred):
+                    if isinstance(e.value, (ast.Tuple, ast.List)):
+                        elts.extend(e.value.elts)
+                    else:
+                        flat_ok = False
+                else:
+                    elts.append(e)
+            if not flat_ok:
+                continue
             dims = []
             for d in (1, 2, 3):
                 ok = True
                 for ttxt, outc in dec.items():
-                    t2 = ttxt.replace(f"{gp}.dim", "DIMV")
+                    t2 = ttxt
+                    for al in sorted(dim_alias, key=len, reverse=True):
+                        t2 = re.sub(rf"(?<![\w.]){re.escape(al)}(?![\w])", "DIMV", t2)
                     if "DIMV" not in t2 and "ret_angle" not in t2:
                         continue
                     try:
@@ -312,8 +359,26 @@ def polar_returns(ctx):
                 if ok:
                     dims.append(d)
             if len(dims) == 1:
-                out[dims[0]] = (s, len(s.value.elts))
+                out[dims[0]] = _Ret(s, elts)
     return fi, out
+
+
+def _inline_components(fv, e, at, diff_name):
+    """replace names that are plain views `diff[..., k]` of the difference vector by that subscript"""
+    import copy
+
+    views = {}
+    for s_ in fv.statements():
+        if isinstance(s_, ast.Assign) and len(s_.targets) == 1 and isinstance(s_.targets[0], ast.Name) and isinstance(s_.value, ast.Subscript) and diff_name and U(s_.value.value) == diff_name:
+            views[s_.targets[0].id] = s_.value
+
+    class R(ast.NodeTransformer):
+        def visit_Name(self, n):
+            if isinstance(n.ctx, ast.Load) and n.id in views:
+                return copy.deepcopy(views[n.id])
+            return n
+
+    return R().visit(copy.deepcopy(e))
 
 
 def check_polar(ctx, rules=("METRIC", "ANGLES", "DIV0")):
@@ -370,8 +435,11 @@ def check_polar(ctx, rules=("METRIC", "ANGLES", "DIV0")):
         def comp(k):
             return f"{diff_name}[..., {k}]"
 
-        for dim, (s, n) in sorted(rets.items()):
-            elts = [fv.expand(e, s, stop=(diff_name, dist_name or "")) for e in s.value.elts]
+        for dim, r_ in sorted(rets.items()):
+            s, n = r_
+            elts = [fv.expand(e, s, stop=(diff_name, dist_name or "")) for e in r_.elts]
+            # named views of the components (dx = diff[..., 0]) are resolved
+            elts = [_inline_components(fv, e, s, diff_name) for e in elts]
             tag = f"{site}:dim{dim}"
             first_ok = U(elts[0]) == dist_name
             if dim == 1:
@@ -457,6 +525,16 @@ def check_scaling(ctx):
     call = rets[0].value
     data = kwarg(call, "data") or (call.args[1] if len(call.args) > 1 else None)
     g = call.args[0] if call.args else kwarg(call, "grid")
+    if data is None or g is None:
+        # arguments collected in a dict and passed with **
+        from ..astutil import dict_items
+
+        for k_ in call.keywords:
+            if k_.arg is None:
+                items = dict_items(fv, k_.value, call)
+                if items:
+                    data = data if data is not None else items.get("data")
+                    g = g if g is not None else items.get("grid")
     if data is None:
         ctx.violate("AFFINE", site, (fi, rets[0]), "returned field carries no data")
         return
@@ -617,6 +695,7 @@ def check_real_harmonics(ctx):
         ctx.undecided("HARMONIC", site, fi, "signature changed")
         return
     l_, m_, th, ph = p
+    fvh = view(m, fi)
     table, default = branch_table(fi.node.body)
     got = {}
     for test, body in table + [(None, default)]:
@@ -628,7 +707,7 @@ def check_real_harmonics(ctx):
         else:
             cp = compare_parts(test)
             key = f"{type(cp[1]).__name__}:{U(cp[2])}" if cp and U(cp[0]) == m_ else U(test)
-        got[key] = (_factors(rets[0].value), rets[0])
+        got[key] = (_factors(fvh.expand(rets[0].value, rets[0], stop=tuple(p)) if fvh.node_of(rets[0]) is not None else rets[0].value), rets[0])
     pos = got.get("Gt:0")
     zero = got.get("Eq:0")
     neg = got.get("Lt:0") or got.get("else")
@@ -653,6 +732,14 @@ def check_real_harmonics(ctx):
     rets = [x for x in ast.walk(rk.node) if isinstance(x, ast.Return)]
     pk = rk.params
     ok = len(rets) == 1 and U(rets[0].value).replace(" ", "") in (f"spherical_harmonic_real(*spherical_index_lm({pk[0]}),θ={pk[1]},φ={pk[2]})", f"spherical_harmonic_real(*spherical_index_lm({pk[0]}),{pk[1]},{pk[2]})")
+    if not ok and len(rets) == 1 and isinstance(rets[0].value, ast.Call) and U(rets[0].value.func) == "spherical_harmonic_real":
+        # (degree, order) unpacked into temporaries first
+        from ..astutil import call_bindings
+
+        fvk = view(m, rk)
+        bnd, unres = call_bindings(fvk, rets[0].value, fi)
+        exp_ = {k_: U(fvk.expand(v_, rets[0], stop=tuple(pk))).replace(" ", "") for k_, v_ in bnd.items()}
+        ok = not unres and exp_ == {l_: f"spherical_index_lm({pk[0]})[0]", m_: f"spherical_index_lm({pk[0]})[1]", th: pk[1], ph: pk[2]}
     ctx.decide(ok, "HARMONIC", rk.qualname, rk, "mode k is evaluated as the real harmonic of its (degree, order)", "spherical_harmonic_real_k does not evaluate spherical_harmonic_real(*spherical_index_lm(k), θ, φ)")
     sy = m.func(f"{SPH}.spherical_harmonic_symmetric")
     rets = [x for x in ast.walk(sy.node) if isinstance(x, ast.Return)]
